@@ -330,6 +330,25 @@ def rule_castle_revert(ctx):
             for c in C.constraints_for(ix, cs, csym, bi):
                 for val in c[1]:
                     table[val] = fld
+    if table != KIND_FIELD:
+        # the same table read by walking castle_status once per kind (`rights[kind]` through an Index impl, a helper, ...):
+        # the value returned is a field of the top record's castling_rights
+        from . import cases
+        kp = [cs.local_name(l) for l in range(1, cs.arg_count + 1) if cs.locals[l]["ty"].lstrip("&").endswith("CastlingKind")]
+        by_cases = {}
+        for k in KIND_FIELD if len(kp) == 1 else ():
+            run = cases.run(ix, cs, {kp[0]: cases.enum_val(ix, "board::ply::castling::CastlingKind", k)})
+            rets = {mir.strip_copies(mir.strip_refs(p.ret)) for p in run.paths if p.end == "return" and p.ret is not None}
+            if run.overflow or len(rets) != 1:
+                by_cases = {}
+                break
+            v = next(iter(rets))
+            while v[0] == "deref":
+                v = mir.strip_copies(mir.strip_refs(v[1]))
+            top = "last" in expr_str(v) and "history" in expr_str(v)
+            by_cases[k] = v[-1] if v[0] == "field" and len(v) >= 3 and v[-2] == "castling_rights" and top else expr_str(v)[:60]
+        if by_cases:
+            table = by_cases
     ctx.check(table == KIND_FIELD, "castle_status:table", "castle_status maps each kind to its own field", cs.where(0), bad_what="castle_status maps %s" % table)
 
 
